@@ -8,21 +8,114 @@ import NixModel.Pure.TreeIdsRel
 namespace Nix.Tree.Ids
 open Nix.Tree Nix.Tree.Shape
 
-theorem eraseT_eq {texts : Nat → String} (inj : TextsInj texts) (k : Nat) :
-    ∀ l : List Node, eraseT texts k l = eraseKey k l
-  | [] => rfl
-  | x :: xs => by
-    rw [eraseT, eraseKey, beq_texts (inj x.key k), eraseT_eq inj k xs]
+/-- whatever the constants of the finder, the loop only returns nodes of the trees waiting in the fifo -/
+theorem findLoopG_subset (s : Finder) (filt : Node → Bool) (lim : Nat) (q : List (Node × Nat)) :
+    ∀ x, x ∈ findLoopG s filt lim q → x ∈ nodesL (q.map Prod.fst) := by
+  fun_induction findLoopG s filt lim q with
+  | case1 => intro x h; simp at h
+  | case2 n lvl rest fifo hf ih =>
+    intro x h
+    have hfifo : ∀ y, y ∈ nodesL (fifo.map Prod.fst) → y ∈ nodesL (n :: rest.map Prod.fst) := by
+      intro y hy
+      simp only [fifo] at hy
+      split at hy
+      · rw [List.map_append, nodesL_append, List.mem_append, List.map_map] at hy
+        rcases hy with hy | hy
+        · exact mem_nodesL_cons.mpr (.inr (.inr hy))
+        · have e : (Prod.fst ∘ fun e : Node => (e, lvl + s.step)) = id := rfl
+          rw [e, List.map_id] at hy
+          exact mem_nodesL_cons.mpr (.inr (.inl hy))
+      · exact mem_nodesL_cons.mpr (.inr (.inr hy))
+    rcases List.mem_cons.mp h with h | h
+    · exact mem_nodesL_cons.mpr (.inl h)
+    · exact hfifo x (ih x h)
+  | case3 n lvl rest fifo hf ih =>
+    intro x h
+    have hfifo : ∀ y, y ∈ nodesL (fifo.map Prod.fst) → y ∈ nodesL (n :: rest.map Prod.fst) := by
+      intro y hy
+      simp only [fifo] at hy
+      split at hy
+      · rw [List.map_append, nodesL_append, List.mem_append, List.map_map] at hy
+        rcases hy with hy | hy
+        · exact mem_nodesL_cons.mpr (.inr (.inr hy))
+        · have e : (Prod.fst ∘ fun e : Node => (e, lvl + s.step)) = id := rfl
+          rw [e, List.map_id] at hy
+          exact mem_nodesL_cons.mpr (.inr (.inl hy))
+      · exact mem_nodesL_cons.mpr (.inr (.inr hy))
+    exact hfifo x (ih x h)
+
+/-- a search started at a node only returns nodes of its subtree -/
+theorem findG_node_subset (s : Finder) (p : Node) (filt : Node → Bool) (lim : Option Nat) {r : List Node}
+    (h : findG s (.node p) filt lim = .ok r) : ∀ x ∈ r, x ∈ nodesL [p] := by
+  unfold findG at h
+  cases hd : s.defaulting.apply lim with
+  | none => simp [hd] at h
+  | some l =>
+    simp only [hd, Except.ok.injEq] at h
+    subst h
+    intro x hx
+    simpa using findLoopG_subset s filt l [(p, s.level0)] x hx
+
+theorem eraseT_eq {texts : Nat → String} {ks : List Nat} (inj : TextsInjOn texts ks) {k : Nat} (hk : k ∈ ks) :
+    ∀ l : List Node, (∀ x ∈ l, x.key ∈ ks) → eraseT texts k l = eraseKey k l
+  | [], _ => rfl
+  | x :: xs, h => by
+    rw [eraseT, eraseKey, beq_texts (inj x.key (h x (List.mem_cons_self ..)) k hk),
+      eraseT_eq inj hk xs (fun y hy => h y (List.mem_cons_of_mem _ hy))]
+
+mutual
+theorem nodes_sub {rs : List Node} : ∀ (c : Node), c ∈ nodesL rs → ∀ y ∈ c.nodes, y ∈ nodesL rs
+  | .mk i cs, hc, y, hy => by
+    rw [Node.nodes] at hy
+    rcases List.mem_cons.mp hy with h | h
+    · exact h ▸ hc
+    · exact nodesL_sub cs (fun d hd => child_mem_nodesL hc hd) y h
+theorem nodesL_sub {rs : List Node} : ∀ (cs : List Node), (∀ d ∈ cs, d ∈ nodesL rs) → ∀ y ∈ nodesL cs, y ∈ nodesL rs
+  | [], _, y, hy => by simp [nodesL] at hy
+  | c :: cs, h, y, hy => by
+    rw [nodesL, List.mem_append] at hy
+    rcases hy with hy | hy
+    · exact nodes_sub c (h c (List.mem_cons_self ..)) y hy
+    · exact nodesL_sub cs (fun d hd => h d (List.mem_cons_of_mem _ hd)) y hy
+end
+
+theorem nodesL_single_subset {rs : List Node} {p : Node} (hp : p ∈ nodesL rs) : ∀ x ∈ nodesL [p], x ∈ nodesL rs :=
+  nodesL_sub [p] (fun d hd => by rw [List.mem_singleton.mp hd]; exact hp)
 
 theorem findRelatedT_eq (ps : ParentShape) (rs : RelatedShape) (sh : IdLookup) (hv : sh.idKey = .asGiven)
-    {texts : Nat → String} (inj : TextsInj texts) {f : File} (ok : IdsOK texts f.sections) (k : Nat)
+    {texts : Nat → String} {f : File} (ok : IdsOK texts f.sections) (k : Nat)
     (useCache : Bool) (filt : Node → Bool) :
     findRelatedT ps rs sh texts f k useCache filt = findRelatedG ps rs f k useCache filt := by
   unfold findRelatedT findRelatedG
-  cases findL? k f.sections with
+  cases hn : findL? k f.sections with
   | none => rfl
   | some n =>
-    simp only [sectionParentT_eq ps sh hv ok, eraseT_eq inj]
-    rfl
+    obtain ⟨hmem, hkey⟩ := (findL?_spec k f.sections).1 n hn
+    have hk : k ∈ keysL f.sections := hkey ▸ key_mem hmem
+    simp only [sectionParentT_eq ps sh hv ok]
+    cases sectionParentG ps f k useCache with
+    | error e => rfl
+    | ok par =>
+      cases par with
+      | none =>
+        cases findG rs.finder (.node n) filt (some rs.selfLimit) <;> rfl
+      | some pk =>
+        simp only []
+        cases hp : findL? pk f.sections with
+        | none => rfl
+        | some p =>
+          have hpm := ((findL?_spec pk f.sections).1 p hp).1
+          simp only []
+          cases ha : findG rs.finder (.node p) filt (some rs.parentLimit) with
+          | error e => rfl
+          | ok a =>
+            have e : eraseT texts k a = eraseKey k a :=
+              eraseT_eq (ks := keysL f.sections) ok.inj hk a
+                (fun x hx => key_mem (nodesL_single_subset hpm x (findG_node_subset _ _ _ _ ha x hx)))
+            cases findG rs.finder (.node n) filt (some rs.selfLimit) with
+            | error e' => rfl
+            | ok b =>
+              show Except.ok (eraseT texts k a ++ b) = Except.ok (eraseKey k a ++ b)
+              rw [e]
 
 end Nix.Tree.Ids
